@@ -18,6 +18,7 @@ FAMILY = "chain"
 ENGINE = "rpcread"
 TEST = "TestRpcReadReplay"
 STEPS = 48  # MaxSteps in RpcRead_sim.cfg
+MAXLEN = 4  # MaxLen in RpcRead_sim.cfg (HugeNum = MAXLEN + 1 stands for 2^64-1)
 METHODS = ["blockNumber", "blockHashAndNumber", "getBlockWithTxHashes", "getBlockWithTxs", "getBlockWithReceipts",
            "getBlockTransactionCount", "getStateUpdate", "getTransactionByHash", "getTransactionReceipt",
            "getTransactionStatus", "getTransactionByBlockIdAndIndex", "getStorageAt", "getNonce", "getClassHashAt",
@@ -33,12 +34,12 @@ def shape_counts(behaviours):
         seen_revert = fork = above = at = below = empty_after = False
         for s in b:
             n = s["a"]["name"]
-            if n == "Revert":
+            if n == "Revert" or (n == "ReadDuring" and any(m["name"] == "Revert" for m in s["a"]["muts"])):
                 seen_revert = True
                 empty_after = empty_after or not s["chain"]
             elif n == "Store" and seen_revert:
                 fork = True
-            if n not in ("Store", "Revert", "SetL1Head") and s["l1"] >= 0 and s["chain"]:
+            if n not in ("Store", "Revert", "SetL1Head", "Restart", "ReadDuring") and s["l1"] >= 0 and s["chain"]:
                 h = len(s["chain"]) - 1
                 above, at, below = above or s["l1"] > h, at or s["l1"] == h, below or s["l1"] < h
         forked += fork
@@ -55,7 +56,7 @@ def shape_counts(behaviours):
 
 
 KIND = {1: "INVOKE", 2: "L1_HANDLER", 3: "INVOKE_REVERTED", 4: "DEPLOY_ACCOUNT", 5: "DECLARE", 6: "DEPLOY",
-        7: "L1_HANDLER"}
+        7: "L1_HANDLER", 8: "INVOKE"}
 BY_HASH = ("getTransactionByHash", "getTransactionReceipt", "getTransactionStatus")
 
 
@@ -68,10 +69,13 @@ def dropped_hash_reads(behaviours):
         txs_of, pos = {}, {}
         for s in b:
             a = s["a"]
+            for m in ([a] if a["name"] == "Store" else a.get("muts", [])):
+                if m["name"] == "Store":
+                    txs_of[tuple(m["path"])] = m["txs"]
+                    for i, t in enumerate(m["txs"]):
+                        pos[t] = (len(m["path"]) - 1, i)
             if a["name"] == "Store":
-                txs_of[tuple(a["path"])] = a["txs"]
-                for i, t in enumerate(a["txs"]):
-                    pos[t] = (len(a["path"]) - 1, i)
+                pass
             elif a["name"] in BY_HASH and s["want"].get("e") == "TxnHashNotFound" and a["t"] in pos:
                 n, i = pos[a["t"]]
                 chain = s["chain"]
@@ -115,34 +119,43 @@ def run(ctx):
 
     # 2. binding: behaviours from TLC -simulate, replayed on the real stack
     nruns = 10 if thorough else 2
-    per_run = 260 if thorough else 140
+    per_run = 260 if thorough else 100
     behaviours = []
     for i in range(nruns):
         behaviours += ctx.tlc_simulate(FAMILY, "RpcReadMBT.tla", "RpcRead_sim.cfg", depth=(STEPS + 1) * per_run,
                                        seed=ctx.seed * 1000 + i, timeout=1500)
-    res = ctx.run_engine(binary, TEST, {"behaviours": behaviours, "first": 0}, timeout=3000)
+    res = ctx.run_engine(binary, TEST, {"behaviours": behaviours, "first": 0, "huge": MAXLEN + 1}, timeout=3000)
     ctx.absorb(res, ENGINE, TEST)
+    ctx.coverage["steps_replayed"] = res.get("steps", 0)
     ctx.coverage["behaviours_generated"] = len(behaviours)
     shapes = shape_counts(behaviours)
     ctx.coverage.update(shapes)
-    def occ(m, k):
-        return shapes.get("dropped_hash_reads_slot_occupied:%s:%s" % (m, k), 0)
-    kinds = sorted(set(KIND.values()))
-    missing = [k for k in kinds if sum(occ(m, k) for m in BY_HASH) == 0]
-    missing += [m for m in BY_HASH if sum(occ(m, k) for k in kinds) == 0]
-    missing += [m + ":L1_HANDLER" for m in BY_HASH if occ(m, "L1_HANDLER") == 0]
-    if missing:
-        raise vlib.Broken("behaviours are vacuous for reverted transaction hashes: no by-hash read of a dropped "
-                          "transaction whose old (number, index) slot is occupied by the fork block for %s" % missing)
-    ctx.coverage["steps_replayed"] = res.get("steps", 0)
-    stats = res.get("stats", {})
-    if stats.get("answers_with_data", 0) < 100:
-        raise vlib.Broken("replay is vacuous: fewer than 100 reads were answered with data")
-    silent = [m for m in METHODS if stats.get("data:" + m, 0) == 0]
-    unseen = [e for e in ERRORS if stats.get("err:" + e, 0) == 0]
-    if silent or unseen:
-        raise vlib.Broken("replay is vacuous: methods never answered with data %s / errors never demanded %s"
-                          % (silent, unseen))
+    # a listed known finding that did not show up is worth a note (it may have been repaired)
+    for k in ctx.known:
+        if k["status"] == "known" and k["key"] not in [h["key"] for h in ctx.known_hits]:
+            print("NOTE: property=%s known finding %s did not reproduce in this run" % (ctx.prop, k["key"]), flush=True)
+    # vacuity guards come last and never mask a violation observed on the real code
+    if not ctx.violations:
+        def occ(m, k):
+            return shapes.get("dropped_hash_reads_slot_occupied:%s:%s" % (m, k), 0)
+        kinds = sorted(set(KIND.values()))
+        missing = [k for k in kinds if sum(occ(m, k) for m in BY_HASH) == 0]
+        missing += [m for m in BY_HASH if sum(occ(m, k) for k in kinds) == 0]
+        missing += [m + ":L1_HANDLER" for m in BY_HASH if occ(m, "L1_HANDLER") == 0]
+        if missing:
+            raise vlib.Broken("behaviours are vacuous for reverted transaction hashes: no by-hash read of a dropped "
+                              "transaction whose old (number, index) slot is occupied by the fork block for %s" % missing)
+        stats = res.get("stats", {})
+        if stats.get("answers_with_data", 0) < 100:
+            raise vlib.Broken("replay is vacuous: fewer than 100 reads were answered with data")
+        silent = [m for m in METHODS if stats.get("data:" + m, 0) == 0]
+        unseen = [e for e in ERRORS if stats.get("err:" + e, 0) == 0]
+        if silent or unseen:
+            raise vlib.Broken("replay is vacuous: methods never answered with data %s / errors never demanded %s"
+                              % (silent, unseen))
+        if stats.get("inflight_reads", 0) < 50 or stats.get("mutations_Restart", 0) < 20:
+            raise vlib.Broken("replay is vacuous: %s in-flight reads, %s restarts" % (
+                stats.get("inflight_reads", 0), stats.get("mutations_Restart", 0)))
     ctx.assumptions += [
         "FFI stubs stand in for the Rust VM/compiler (read methods never call them; a call aborts loudly)",
         "blocks are built by chainkit through the real Simulate/SanityCheckNewHeight/Store; the hash and "
